@@ -248,13 +248,25 @@ fn main() {
                                     Some(_) if se.contains("panicked") => "panic",
                                     Some(_) => "err",
                                 };
-                                lines.push(
-                                    json!({"ev": "eval", "via": "bgpfu-cli", "prop": "C11", "case": c["case"], "db": g["db"], "expr": c["expr"],
+                                let mut ev = json!({"ev": "eval", "via": "bgpfu-cli", "prop": "C11", "case": c["case"], "db": g["db"], "expr": c["expr"],
                                            "expr_str": c["expr_str"], "errs": {"asSets": [], "ases": [], "rtSets": [], "fltSets": []},
                                            "pos": 1, "outcome": outcome, "atoms": atoms, "extra": extra, "ranges": ranges,
-                                           "queries": irrd.log.lock().unwrap().iter().rev().take(12).cloned().collect::<Vec<String>>()})
-                                    .to_string(),
-                                );
+                                           "queries": irrd.log.lock().unwrap().iter().rev().take(12).cloned().collect::<Vec<String>>()});
+                                if c["expect_ranges"].is_array() {
+                                    // a case whose expected output is stated literally (values outside the model's universe)
+                                    ev["expect_ranges"] = c["expect_ranges"].clone();
+                                    let mut r: Vec<String> = ev["ranges"].as_array().unwrap().iter().filter_map(|x| x.as_str().map(|y| {
+                                        // "p/l^l-l" is the prefix itself
+                                        let y = y.trim().to_lowercase();
+                                        match y.split_once('^') {
+                                            Some((p, r)) if p.split_once('/').is_some_and(|(_, l)| r == format!("{l}-{l}") || r == l) => p.to_string(),
+                                            _ => y,
+                                        }
+                                    })).collect();
+                                    r.sort();
+                                    ev["ranges"] = json!(r);
+                                }
+                                lines.push(ev.to_string());
                             }
                         }
                         lines
